@@ -484,6 +484,25 @@ func banners() {
 			}
 		}
 	}
+	// opaque pictures with soft edges (translucent first / last pixels of a row, a few scattered ones): row-level
+	// shortcuts for "all opaque" must look at every pixel.  Widths around multiples of the word and vector sizes.
+	for _, typ := range []string{"NRGBA", "RGBA", "NRGBA64", "RGBA64"} {
+		for _, helper := range []string{"NRGBA", "RGBA", "RGBA64"} {
+			for _, w := range []int{1, 2, 3, 7, 8, 9, 15, 16, 17, 18, 31, 32, 33, 63, 64, 65, 127, 129} {
+				for _, h := range []int{1, 4} {
+					x0 := (w + h) % 3
+					s := img.Spec{Type: typ, Rect: [4]int{x0, 1, x0 + w, 1 + h}, Parent: [4]int{0, 0, x0 + w + h%2, 2 + h}, Fill: "edges", Seed: ev.Seed() + uint64(n)}
+					c := Case{Src: s, Helper: helper, Par: 1 + (w+h)%3}
+					n++
+					kd, wh, _ := check(c)
+					if kd != "" && !bad[helper+kd] {
+						bad[helper+kd] = true
+						ev.Violation("convert", c.Helper+"/"+kd, wh, c)
+					}
+				}
+			}
+		}
+	}
 	// rows longer than 2^16, 2^17, 2^18 pixels (16-bit column counters, subsampled chroma offsets): one row, every
 	// type and subsampling ratio, helper and parallelism rotated (all helpers in thorough)
 	for ti, typ := range img.Types {
